@@ -230,12 +230,11 @@ open Compress.Proofs.BrImpl Compress Compress.Brotli in
     included, the repeating last entry positive):
     * the specification accepts ⇒ with enough fuel the model delivers exactly the specification's
       output and ends with `io.EOF`; with any fuel it has delivered a prefix of it;
-    * the specification rejects, and input bits + output bytes < 2^24 ⇒ the model ends with another
-      error (never `io.EOF`) after delivering bytes that agree with the specification's output position
-      by position; with any fuel it has delivered a prefix of that.
-    The size cap is needed only because the SPECIFICATION gives a single-type block category a count of
-    2^24 symbols and fails when it is used up, while the Go reader (`typeLen = -1`) lets it run on; every
-    command consumes an input bit or produces a byte, so below the cap the difference cannot show. -/
+    * the specification rejects ⇒ the model ends with another error (never `io.EOF`) after delivering
+      bytes that agree with the specification's output position by position; with any fuel it has
+      delivered a prefix of that.
+    (Before the repair /repo a4683a3 the reject direction needed a size cap: the Go reader never
+    enforced the block count 2^24 of a single-type block category — found by this proof, see DESIGN.md D14.) -/
 theorem C02_refines_spec (dict : ByteArray) (hdict : dict.size = 122784) (bytes : List UInt8) (sched : List Nat)
     (hs : ∀ n, sched.getLast? = some n → 0 < n) :
     (∀ n, (decode dict bytes).verdict = .ok n →
@@ -243,7 +242,7 @@ theorem C02_refines_spec (dict : ByteArray) (hdict : dict.size = 122784) (bytes 
         (Impl.run dict fuel bytes sched).1 = (decode dict bytes).out.toList ∧
         (Impl.run dict fuel bytes sched).2.1 = some .eof) ∧
       (∀ fuel, (Impl.run dict fuel bytes sched).1 <+: (decode dict bytes).out.toList)) ∧
-    ((∀ n, (decode dict bytes).verdict ≠ .ok n) → 8 * bytes.length + (decode dict bytes).out.size < 2 ^ 24 →
+    ((∀ n, (decode dict bytes).verdict ≠ .ok n) →
       ∃ X e, e ≠ .eof ∧ Agree X (decode dict bytes).out.toList ∧
         (∀ fuel, X.length + sched.length + 2 ≤ fuel →
           (Impl.run dict fuel bytes sched).1 = X ∧ (Impl.run dict fuel bytes sched).2.1 = some e) ∧
@@ -258,11 +257,10 @@ def C02_refines_spec_statement (dict : ByteArray) : Prop :=
   ∀ (bytes : List UInt8) (sched : List Nat), (∀ n, sched.getLast? = some n → 0 < n) → RefinesSpec dict bytes sched
 
 open Compress.Proofs.BrImpl Compress Compress.Brotli in
-/-- `C02_refines_spec_statement`, proved for the inputs below the size cap. -/
-theorem C02_refines_spec_small (dict : ByteArray) (hdict : dict.size = 122784) (bytes : List UInt8) (sched : List Nat)
-    (hs : ∀ n, sched.getLast? = some n → 0 < n)
-    (hsmall : 8 * bytes.length + (decode dict bytes).out.size < 2 ^ 24) : RefinesSpec dict bytes sched :=
-  Compress.Proofs.BrImpl.refinesSpec_of dict bytes sched hsmall
+/-- **C02 in one piece**: `C02_refines_spec_statement` holds for the dictionary of the right size. -/
+theorem C02_refines_spec_one_piece (dict : ByteArray) (hdict : dict.size = 122784) :
+    C02_refines_spec_statement dict :=
+  fun bytes sched hs => Compress.Proofs.BrImpl.refinesSpec_of dict bytes sched
     (Compress.Proofs.BrImpl.refines_spec dict hdict bytes sched hs)
 
 open Compress.Proofs.BrImpl Compress Compress.Brotli in
@@ -276,7 +274,7 @@ theorem C02_refines_spec_uncompressed (dict : ByteArray) (bytes : List UInt8) (h
         (Impl.run dict fuel bytes sched).1 = (decode dict bytes).out.toList ∧
         (Impl.run dict fuel bytes sched).2.1 = some .eof) ∧
       (∀ fuel, (Impl.run dict fuel bytes sched).1 <+: (decode dict bytes).out.toList)) ∧
-    ((∀ n, (decode dict bytes).verdict ≠ .ok n) → 8 * bytes.length + (decode dict bytes).out.size < 2 ^ 24 →
+    ((∀ n, (decode dict bytes).verdict ≠ .ok n) →
       ∃ X e, e ≠ .eof ∧ Agree X (decode dict bytes).out.toList ∧
         (∀ fuel, X.length + sched.length + 2 ≤ fuel →
           (Impl.run dict fuel bytes sched).1 = X ∧ (Impl.run dict fuel bytes sched).2.1 = some e) ∧
@@ -287,10 +285,6 @@ theorem C02_refines_spec_uncompressed (dict : ByteArray) (bytes : List UInt8) (h
 
 /-- a dictionary of the right size exists (any 122,784 bytes do; the real one is loaded from /repo by the harness). -/
 example : ∃ dict : ByteArray, dict.size = 122784 := ⟨⟨Array.replicate 122784 0⟩, by simp [ByteArray.size]⟩
-
-/-- the size cap holds e.g. for the one-byte stream 0x06 (ISLAST, ISLASTEMPTY). -/
-example (dict : ByteArray) : 8 * [(0x06 : UInt8)].length + (Brotli.decode dict [0x06]).out.size < 2 ^ 24 := by
-  rw [C02_spec_last_empty dict []]; decide
 
 open Compress.Proofs.BrImpl Compress Compress.Brotli in
 /-- `UncompressedOnly` holds e.g. for the stream 0x06: WBITS = 16, then a last, empty meta-block. -/
@@ -303,7 +297,7 @@ example : UncompressedOnly [0x06] := by
   exact RawOnly.lastEmpty (st1 := { bits := [false, false, false, false, false], used := 3, out := #[] }) (by rfl)
 
 open Compress.Proofs.BrImpl Compress Compress.Brotli in
-/-- a `Trace` (the hypothesis of the layer (a) theorems) exists for every input below the cap, e.g.: -/
+/-- a `Trace` (the hypothesis of the layer (a) theorems) exists for every input, e.g.: -/
 example (dict : ByteArray) (hdict : dict.size = 122784) : Trace dict (Impl.init [0x06]) [] .eof := by
   have h := (Compress.Proofs.BrImpl.trace_of_compressed dict (Compress.Proofs.BrImpl.compressedSimZ dict hdict) [0x06]).1 8
     (by rw [C02_spec_last_empty dict []])
